@@ -27,10 +27,13 @@ def isDigitC (c : Char) : Bool := '0' ≤ c && c ≤ '9'
 
 def digitsVal (ds : Str) : Nat := ds.foldl (fun a c => a * 10 + (c.toNat - 48)) 0
 
+/-- the digits after an optional `+` sign (`str::parse` of an integer accepts it) -/
+def stripPlus (t : Str) : Str := match t with | '+' :: r => r | _ => t
+
 /-- `str::parse::<NonZeroUsize>()` on a 64-bit target: optional `+`, one or more ASCII digits,
     value in `1 ..= 2^64-1` -/
 def parseNonZeroUsize (t : Str) : Option Nat :=
-  let ds := match t with | '+' :: r => r | _ => t
+  let ds := stripPlus t
   if ds.isEmpty || !ds.all isDigitC then none
   else if digitsVal ds = 0 ∨ 18446744073709551615 < digitsVal ds then none
   else some (digitsVal ds)
